@@ -15,6 +15,9 @@ spec = {
   'probes': [{'kind': 'assist-attr'|'assist-bare'|'location'|'lint', 'file': mid, 'expr': str|None,
               'path': [mid, ...]}],  # modules the probe expression walks through (file first)
 }
+A module may carry 'shadow': <attribute name>: it is a sub-module of its package whose FILE is named like an
+attribute that the package's __init__ defines (pkg/K_<stem of pkg>.py); `from pkg import <attr>` resolves
+to it once it exists.  Nothing imports it by an explicit edge; successors() adds the implicit dependency.
 mid is a single lower-case letter; the identifier stem of a module is tag+mid, so the owner
 of any generated identifier can be read back from the identifier itself (owner_of()).
 
@@ -46,6 +49,8 @@ def stem(spec, mid):
 
 def dotted(spec, mid):
     m = spec['modules'][mid]
+    if m.get('shadow'):
+        return stem(spec, m['pkg']) + '.' + m['shadow']
     if m['pkg'] and not m['init']:
         return stem(spec, m['pkg']) + '.' + stem(spec, mid)
     return stem(spec, mid)
@@ -55,6 +60,8 @@ def relpath(spec, mid):
     m = spec['modules'][mid]
     if m['init']:
         return stem(spec, mid) + '/__init__.py'
+    if m.get('shadow'):
+        return stem(spec, m['pkg']) + '/' + m['shadow'] + '.py'
     if m['pkg']:
         return stem(spec, m['pkg']) + '/' + stem(spec, mid) + '.py'
     return stem(spec, mid) + '.py'
@@ -182,6 +189,13 @@ def successors(spec, mid):
         if e['kind'] == 'import' and t['pkg'] and not t['init'] and t['pkg'] != mid:
             if not any(b == t['pkg'] for b, _ in out):
                 out.append((t['pkg'], 'import'))
+    # `from pkg import attr` / `from pkg import *` first looks for a sub-module pkg.attr
+    for sid, sm in spec['modules'].items():
+        if sm.get('shadow') and sid != mid:
+            for e in spec['modules'][mid]['edges']:
+                if e['to'] == sm['pkg'] and (e['kind'] == 'star' or (e['kind'] == 'from' and sm['shadow'] in e['names'])):
+                    out.append((sid, e['kind']))
+                    break
     return out
 
 
@@ -325,9 +339,9 @@ def request_source(spec, probe, text):
 # --------------------------------------------------------------------------------------
 # fixed 4-module chains for the exhaustive part
 
-def _mod(level, edges=(), pkg=None, init=False, present=True, main=False):
+def _mod(level, edges=(), pkg=None, init=False, present=True, main=False, shadow=None):
     return {'pkg': pkg, 'init': init, 'present': present, 'main': main, 'level': level,
-            'edges': [dict(e) for e in edges], 'uses': []}
+            'edges': [dict(e) for e in edges], 'uses': [], 'shadow': shadow}
 
 
 def _e(kind, to, names=(), rel=False):
@@ -335,8 +349,9 @@ def _e(kind, to, names=(), rel=False):
 
 
 def chain_spec(variant, tag):
-    """main m imports a, a imports (R) / star-imports (S) b, b re-exports from c; d is absent at
-    the start and is star-imported (S) / imported (R) by b."""
+    """main m imports a, a imports (R) / star-imports (S) b, b re-exports from the package c; d is absent
+    at the start and is star-imported (S) / imported (R) by b; s is the sub-module c/K_c.py, absent at the
+    start, whose file name equals the class K_c that c/__init__.py defines and b re-exports."""
     T = tag
     kc, cs = 'K_%sc' % T, '%sc_s' % T
     if variant == 'S':
@@ -344,20 +359,22 @@ def chain_spec(variant, tag):
             'm': _mod(0, [_e('star', 'a'), _e('from', 'a', [kc])], main=True),
             'a': _mod(1, [_e('star', 'b')]),
             'b': _mod(2, [_e('from', 'c', [kc, cs]), _e('star', 'd')]),
-            'c': _mod(3),
+            'c': _mod(3, pkg='c', init=True),
             'd': _mod(3, present=False),
+            's': _mod(4, pkg='c', present=False, shadow=kc),
         }
     elif variant == 'R':
         mods = {
             'm': _mod(0, [_e('import', 'a'), _e('from', 'a', [T + 'b'])], main=True),
             'a': _mod(1, [_e('import', 'b')]),
             'b': _mod(2, [_e('from', 'c', [kc, cs]), _e('import', 'd')]),
-            'c': _mod(3),
+            'c': _mod(3, pkg='c', init=True),
             'd': _mod(3, present=False),
+            's': _mod(4, pkg='c', present=False, shadow=kc),
         }
     else:
         raise ValueError(variant)
-    spec = {'tag': T, 'modules': mods, 'order': ['m', 'a', 'b', 'c', 'd']}
+    spec = {'tag': T, 'modules': mods, 'order': ['m', 'a', 'b', 'c', 'd', 's']}
     spec['probes'] = build_probes(spec)
     return spec
 
@@ -372,12 +389,12 @@ def chain_alphabet(variant, spec):
                 return ['req', i]
         raise AssertionError((kind, expr, [(p['kind'], p['expr']) for p in spec['probes']]))
     if variant == 'S':
-        mods = [['rewrite', 'a'], ['rewrite', 'b'], ['rewrite', 'c'], ['touch', 'a'], ['touch', 'b'], ['put', 'd']]
+        mods = [['rewrite', 'a'], ['rewrite', 'b'], ['rewrite', 'c'], ['touch', 'a'], ['touch', 'b'], ['put', 'd'], ['put', 's']]
         reqs = [req('assist-bare', None), req('assist-attr', 'K_%sc' % T), req('location', 'K_%sc' % T),
                 req('lint', None)]
     else:
         a, b, d = T + 'a', T + 'b', T + 'd'
-        mods = [['rewrite', 'a'], ['rewrite', 'b'], ['rewrite', 'c'], ['touch', 'b'], ['put', 'd']]
+        mods = [['rewrite', 'a'], ['rewrite', 'b'], ['rewrite', 'c'], ['touch', 'b'], ['put', 'd'], ['put', 's']]
         reqs = [req('assist-attr', '%s.%s' % (a, b)), req('assist-attr', '%s.%s.K_%sc' % (a, b, T)),
                 req('assist-attr', '%s.%s.%s' % (a, b, d)), req('location', '%s.%s.K_%sc' % (a, b, T)),
                 req('assist-attr', b)]
@@ -509,6 +526,22 @@ def random_spec(rng, tag):
                 vis = sorted(visible(spec, e['to']))
                 k = min(len(vis), rng.randint(1, 2))
                 e['names'] = rng.sample(vis, k)
+    # a sub-module, absent at the start, named like an attribute that a package __init__ defines and that
+    # somebody from-imports / star-imports from the package
+    if len(mods) <= 5 and pkgs and rng.random() < 0.8:
+        cands = []
+        for x in sorted(mods):
+            for e in mods[x]['edges']:
+                if e['to'] in pkgs and e['kind'] in ('from', 'star'):
+                    cands.append((x, e))
+        if cands:
+            x, e = rng.choice(cands)
+            pk = e['to']
+            attr = rng.choice([cls_name(spec, pk), var_name(spec, pk)])
+            if e['kind'] == 'from' and attr not in e['names']:
+                e['names'].append(attr)
+            mods['s'] = _mod(mods[pk]['level'] + 1, pkg=pk, present=False, shadow=attr)
+            spec['order'].append('s')
     spec['probes'] = build_probes(spec)
     return spec
 
